@@ -274,9 +274,11 @@ def rnum_value(rng, extra, want=True):
         for d in (-1, 0, 1, -0.5, 0.5, 0.25):
             cands.append(ref + d)
     cands += [0, 1, -1, 5, 0.5, 100, -100]
+    if base is int:
+        cands += [2**53 + 1, -(2**53 + 1), 10**18 + 1]  # integers that a float cannot hold
     rng.shuffle(cands)
     for c in cands:
-        if base is int and float(c) != int(c):
+        if base is int and isinstance(c, float) and not c.is_integer():
             continue
         v = base(c)
         if satisfies(extra, v) == want:
@@ -372,9 +374,18 @@ def conforming(rng, t, hostile=0.0, size=3):
         return rng.choice(t.extra)
     if k == "rnum":
         v = rnum_value(rng, t.extra, True)
-        return t.hint(v) if v is not None else None  # None -> caller must cope (unsatisfiable restriction)
+        if v is None:
+            return None  # caller must cope (unsatisfiable restriction)
+        try:
+            return t.hint(v)
+        except ValueError:
+            return v  # the type's own cast refuses a value satisfying its restrictions: the checks will say so
     if k == "rstr":
-        return t.hint(regex_value(rng, t.extra))
+        v = regex_value(rng, t.extra)
+        try:
+            return t.hint(v)
+        except ValueError:
+            return v
     if k == "reg":
         return reg_value(rng, t.extra)
     if k == "optional":
